@@ -1,3 +1,390 @@
+import Bch.Proofs.Checked
+/-
+C08 — no parser panics, hangs or over-allocates on untrusted input.
+
+The total models (`Bch/Model/*.lean`) cannot express a panic (`getD`, `take`, `drop`, `x % 0 = x`).
+`Bch/Proofs/Checked.lean` therefore holds a *fault-tracking transcription* `fooC` of every entry point:
+each Go operation that can panic (index, slice, `%`, type assertion, nil dereference, `make`) is a checked
+primitive returning `Except Fault`, cited with its Go line. For each entry point this file states
+
+* `fooC_no_fault  : ∃ r, fooC x = .ok r`          — for ALL inputs (hypotheses only where the Go API has a
+                                                     documented precondition; each is justified below),
+* `fooC_eq_model  : fooC x = .ok (Model.foo x)`    — the total model is exactly what the checked code computes,
+* negative examples: the transcription *without* the guard faults (so the theorems are not vacuous),
+
+plus the step bounds for the two recursive/looping decoders (merkle, GCS) and the allocation bound for
+`HashMatchAny`. Collected in `C08_all`.
+
+Not covered here (stated, not hidden): time bounds for the remaining (single-pass) parsers, which have no
+loop other than `for i < len`; `GetMatchedIndices` (exponential re-checking, fixed by e69b75a, see C10);
+`convertBase64` on the *marshalling* side still uses the unchecked `s.(string)`, its input is produced by
+the protobuf marshaller from a typed message (homogeneous arrays: `convStrs_unchecked_homogeneous`).
+-/
 namespace Bch.Props.C08
-theorem placeholder : True := trivial
+open Bch Bch.Model Bch.Proofs.Checked
+
+/-! ## the checked primitives fault exactly outside the Go domain -/
+
+/-- `l[i]` -/
+theorem idx_spec {α : Type} (l : List α) (i : Nat) :
+    (∀ h : i < l.length, idx? l i = .ok l[i]) ∧ (l.length ≤ i → idx? l i = .error .indexOOB) :=
+  ⟨fun h => idx?_ok h, idx?_oob⟩
+
+/-- `l[lo:hi]` with signed bounds: fine iff `0 ≤ lo ≤ hi ≤ len` -/
+theorem slice_spec {α : Type} (l : List α) (lo hi : Int) :
+    (0 ≤ lo → lo ≤ hi → hi ≤ l.length → slice? l lo hi = .ok ((l.take hi.toNat).drop lo.toNat)) ∧
+    (lo < 0 ∨ hi < lo ∨ (l.length : Int) < hi → slice? l lo hi = .error .sliceOOB) :=
+  ⟨slice?_ok, slice?_oob⟩
+
+/-- `a % b` -/
+theorem mod_spec (a b : Nat) : (b ≠ 0 → mod? a b = .ok (a % b)) ∧ mod? a 0 = .error .divZero :=
+  ⟨mod?_ok, mod?_zero a⟩
+
+example : slice? [1, 2, 3] 0 ((3 : Int) - 8) = .error .sliceOOB := by decide
+example : slice? [1, 2, 3] 1 3 = .ok [2, 3] := by decide
+example : idx? [1, 2, 3] 3 = .error .indexOOB := by decide
+
+/-! ## 1. `DecodeCashAddress`, `checkDecodeCashAddress` (address.go) -/
+
+/-- Every byte string: `str[i]` in the three loops, `CharsetRev[c]` after the `c > 127` test, `values[i] = …`,
+`make([]byte, len(str)-1-prefixSize)` and `values[:len(values)-8]` are all in range. No hypothesis. -/
+theorem DecodeCashAddressC_no_fault (str : Bytes) : ∃ r, DecodeCashAddressC str = .ok r :=
+  Proofs.Checked.DecodeCashAddressC_no_fault str
+
+theorem DecodeCashAddressC_eq_model (str : Bytes) :
+    DecodeCashAddressC str = .ok (CashAddr.DecodeCashAddress str) :=
+  Proofs.Checked.DecodeCashAddressC_eq_model str
+
+/-- `data[0]`, `data[1:33]`, `data[1:21]` after the length switch. No hypothesis. -/
+theorem checkDecodeCashAddressC_no_fault (input : Bytes) : ∃ r, checkDecodeCashAddressC input = .ok r :=
+  Proofs.Checked.checkDecodeCashAddressC_no_fault input
+
+theorem checkDecodeCashAddressC_eq_model (input : Bytes) :
+    checkDecodeCashAddressC input = .ok (CashAddr.checkDecodeCashAddress input) :=
+  Proofs.Checked.checkDecodeCashAddressC_eq_model input
+
+/-- NEGATIVE (the guard of fix 662835b matters): the same transcription without the `len(values) < 8` test
+faults with `sliceOOB` exactly on the inputs the fixed code rejects as "shorter than its checksum". -/
+theorem DecodeCashAddress_prefix_fault_iff (str : Bytes) :
+    DecodeCashAddressPreFix str = .error .sliceOOB ↔ CashAddr.DecodeCashAddress str = .error .tooShort :=
+  DecodeCashAddressPreFix_fault_iff str
+
+/-- NEGATIVE, concrete: "aaby:tsyerga" — seven payload symbols whose checksum verifies -/
+theorem DecodeCashAddress_prefix_witness :
+    DecodeCashAddressPreFix [97,97,98,121,58,116,115,121,101,114,103,97] = .error .sliceOOB :=
+  DecodeCashAddressPreFix_witness
+
+-- the witness is the string from the defect report, its checksum does verify, and the fixed code errors
+example : Bytes.ofString "aaby:tsyerga" = [97,97,98,121,58,116,115,121,101,114,103,97] := by decide +kernel
+example : CashAddr.verifyChecksum [97,97,98,121] [11,16,4,25,3,8,29] = true := by decide +kernel
+example : ([116,115,121,101,114,103,97] : Bytes).mapM CashAddr.charsetRev = some [11,16,4,25,3,8,29] := by
+  decide +kernel
+example : DecodeCashAddressC [97,97,98,121,58,116,115,121,101,114,103,97] = .ok (.error .tooShort) := by
+  decide +kernel
+-- the success path of the checked code is inhabited too (a valid mainnet address)
+example : (match checkDecodeCashAddressC (Bytes.ofString "bitcoincash:qpm2qsznhks23z7629mms6s4cwef74vcwvy22gdx6a") with
+    | .ok (_, .ok (h, 0)) => h.length == 20 | _ => false) = true := by decide +kernel
+
+/-! ## 2. `base58.CheckDecode`, `DecodeWIF` -/
+
+/-- `decoded[0]`, `decoded[len-4:]`, `decoded[:len-4]`, `decoded[1:len-4]` behind `len(decoded) < 5`.
+`H` (double SHA-256) is arbitrary: the hash is a `[32]byte` array sliced with constants. -/
+theorem CheckDecodeC_no_fault (H : Bytes → Bytes) (s : Bytes) : ∃ r, CheckDecodeC H s = .ok r :=
+  Proofs.Checked.CheckDecodeC_no_fault H s
+
+theorem CheckDecodeC_eq_model (H : Bytes → Bytes) (s : Bytes) :
+    CheckDecodeC H s = .ok (Base58.CheckDecode H s) :=
+  Proofs.Checked.CheckDecodeC_eq_model H s
+
+/-- NEGATIVE: without the length test the empty string faults on `decoded[0]` -/
+theorem CheckDecode_noGuard_witness (H : Bytes → Bytes) : CheckDecodeG false H [] = .error .indexOOB :=
+  CheckDecodeG_false_witness H
+
+/-- `decoded[33]`, `decoded[:34]`/`[:33]`, `DoubleHashB(tosum)[:4]`, `decoded[decodedLen-4:]`, `decoded[0]`,
+`decoded[1:33]` behind the `switch decodedLen`. Hypothesis `hH`: the contract of the external primitive
+`chainhash.DoubleHashB` (it returns 32 bytes; only `≥ 4` is needed for `[:4]`). -/
+theorem DecodeWIFC_no_fault (H : Bytes → Bytes) (hH : ∀ b, 4 ≤ (H b).length) (s : Bytes) :
+    ∃ r, DecodeWIFC H s = .ok r :=
+  Proofs.Checked.DecodeWIFC_no_fault H hH s
+
+theorem DecodeWIFC_eq_model (H : Bytes → Bytes) (hH : ∀ b, 4 ≤ (H b).length) (s : Bytes) :
+    DecodeWIFC H s = .ok (Wif.DecodeWIF H s) :=
+  Proofs.Checked.DecodeWIFC_eq_model H hH s
+
+-- non-vacuity of `hH`
+example : ∀ b : Bytes, 4 ≤ ((fun _ => List.replicate 32 (0 : UInt8)) b).length := by intro b; simp
+
+/-! ## 3. `hdkeychain.NewKeyFromString` -/
+
+/-- `decoded[:len-4]`, `decoded[len-4:]`, `DoubleHashB(payload)[:4]`, `payload[:4]`, `payload[4:5][0]`,
+`[5:9]`, `[9:13]`, `[13:45]`, `[45:78]`, `keyData[0]`, `keyData[1:]` behind `len(decoded) != 82`.
+Hypothesis: as for `DecodeWIF`. -/
+theorem NewKeyFromStringC_no_fault {Pt : Type} (X : HDKey.HDExt Pt) (hH : ∀ b, 4 ≤ (X.sha256d b).length)
+    (s : Bytes) : ∃ r, NewKeyFromStringC X s = .ok r :=
+  Proofs.Checked.NewKeyFromStringC_no_fault X hH s
+
+theorem NewKeyFromStringC_eq_model {Pt : Type} (X : HDKey.HDExt Pt) (hH : ∀ b, 4 ≤ (X.sha256d b).length)
+    (s : Bytes) : NewKeyFromStringC X s = .ok (HDKey.NewKeyFromString X s) :=
+  Proofs.Checked.NewKeyFromStringC_eq_model X hH s
+
+-- non-vacuity of the hypothesis: a parameter pack whose hash returns 32 bytes
+example : ∃ X : HDKey.HDExt Unit, ∀ b, 4 ≤ (X.sha256d b).length :=
+  ⟨{ hmac512 := fun _ _ => [], hash160 := fun _ => [], sha256d := fun _ => List.replicate 32 0, n := 7,
+     mulG := fun _ => none, add := fun _ _ => none, parse := fun _ => none, serC := fun _ => [], serInf := [] },
+   by intro b; simp⟩
+
+/-! ## 4. bloom `hash` / `matches` / `add`
+
+Precondition `m.bits.length ≤ 36000`: "filter-load messages within the wire limits" in the property
+statement — `wire.MaxFilterLoadFilterSize`, enforced by `MsgFilterLoad.BchDecode` (and by `NewFilter`'s
+clamp, C09 `sizing`). -/
+
+/-- Exactly where the limit is needed: `uint32(len) << 3` equals `8·len` (no wrap), hence the divisor of
+`mm % …` is non-zero for a non-empty array and the bit index satisfies `idx >> 3 < len`. (`len < 2^29`
+suffices.) -/
+theorem bloom_hash_ok (len : Nat) (tweak : UInt32) (i : Nat) (data : Bytes) (h0 : 0 < len) (h : len < 2 ^ 29) :
+    hashC len tweak i data = .ok (Proofs.Bloom.idxOf tweak len i data) ∧
+      Proofs.Bloom.idxOf tweak len i data >>> 3 < len :=
+  hashC_ok len tweak i data h0 h
+
+/-- NEGATIVE (limit): at `2^29` bytes the shift wraps to 0 and the hash divides by zero -/
+theorem bloom_hash_wraps (tweak : UInt32) (i : Nat) (data : Bytes) :
+    hashC (2 ^ 29) tweak i data = .error .divZero := hashC_wraps tweak i data
+
+/-- NEGATIVE (fix e6b8a4b): on an empty bit array the hash divides by zero -/
+theorem bloom_hash_empty (tweak : UInt32) (i : Nat) (data : Bytes) :
+    hashC 0 tweak i data = .error .divZero := hashC_empty tweak i data
+
+theorem matchesMsgC_no_fault (m : Bloom.Msg) (h : m.bits.length ≤ 36000) (data : Bytes) :
+    ∃ r, matchesMsgC m data = .ok r := Proofs.Checked.matchesMsgC_no_fault m h data
+
+theorem matchesMsgC_eq_model (m : Bloom.Msg) (h : m.bits.length ≤ 36000) (data : Bytes) :
+    matchesMsgC m data = .ok (Bloom.matchesMsg m data) :=
+  Proofs.Checked.matchesMsgC_eq_model m (by omega) data
+
+theorem addMsgC_no_fault (m : Bloom.Msg) (h : m.bits.length ≤ 36000) (data : Bytes) :
+    ∃ r, addMsgC m data = .ok r := Proofs.Checked.addMsgC_no_fault m h data
+
+theorem addMsgC_eq_model (m : Bloom.Msg) (h : m.bits.length ≤ 36000) (data : Bytes) :
+    addMsgC m data = .ok (Bloom.addMsg m data) :=
+  Proofs.Checked.addMsgC_eq_model m (by omega) data
+
+/-- with the nil test: loaded or not -/
+theorem MatchesC_eq_model (f : Bloom.Filter) (h : ∀ m, f = some m → m.bits.length ≤ 36000) (data : Bytes) :
+    MatchesC f data = .ok (Bloom.Matches f data) := Proofs.Checked.MatchesC_eq_model f h data
+
+theorem addC_eq_model (f : Bloom.Filter) (h : ∀ m, f = some m → m.bits.length ≤ 36000) (data : Bytes) :
+    addC f data = .ok (Bloom.add f data) := Proofs.Checked.addC_eq_model f h data
+
+/-- NEGATIVE (fix e6b8a4b): `LoadFilter(filter=[], nHash≥1).Matches(x)` / `.Add(x)` divided by zero -/
+theorem bloom_noGuard_fault (m : Bloom.Msg) (he : m.bits = []) (hn : 0 < m.nHash) (data : Bytes) :
+    matchesG false m data = .error .divZero ∧ addG false m data = .error .divZero :=
+  ⟨matchesG_false_fault m he hn data, addG_false_fault m he hn data⟩
+
+-- non-vacuity: the empty filter (guard branch), a one-byte filter (loop branch), the largest legal size
+example : (⟨[], 1, 0, 0⟩ : Bloom.Msg).bits.length ≤ 36000 ∧ (⟨[], 1, 0, 0⟩ : Bloom.Msg).bits = [] ∧
+    0 < (⟨[], 1, 0, 0⟩ : Bloom.Msg).nHash := by decide
+example : (⟨[0], 2, 5, 0⟩ : Bloom.Msg).bits.length ≤ 36000 := by decide
+example : (⟨List.replicate 36000 0, 50, 0, 0⟩ : Bloom.Msg).bits.length ≤ 36000 := by
+  show (List.replicate 36000 (0 : UInt8)).length ≤ 36000
+  rw [List.length_replicate]; omega
+
+/-! ## 5. merkle `NewMerkleBlockFromMsg` / `ExtractMatches` / `traverseAndExtract` -/
+
+section Merkle
+variable {H : Type} [DecidableEq H]
+
+/-- `msg.Flags[i/8]`, `bits[i] = …` for `i < 8·len(Flags)` -/
+theorem unpackFlagsC_eq_model (flags : List UInt8) : unpackFlagsC flags = .ok (Merkle.unpackFlags flags) :=
+  Proofs.Checked.unpackFlagsC_eq_model flags
+
+/-- `m.bits[m.bitsUsed]`, `m.finalHashes[m.hashesUsed]` behind the two cursor tests; any tree shape,
+any state, any `numTx`. No hypothesis. -/
+theorem traverseC_no_fault (comb : H → H → H) (zero : H) (n : Nat) (bits : Array Bool) (hashes : Array H)
+    (h pos : Nat) (st : Merkle.Ext H) : ∃ r, traverseC comb zero n bits hashes h pos st = .ok r :=
+  Proofs.Checked.traverseC_no_fault comb zero n bits hashes h pos st
+
+theorem traverseC_eq_model (comb : H → H → H) (zero : H) (n : Nat) (bits : Array Bool) (hashes : Array H)
+    (h pos : Nat) (st : Merkle.Ext H) :
+    traverseC comb zero n bits hashes h pos st = .ok (Merkle.traverse comb zero n bits hashes h pos st) :=
+  Proofs.Checked.traverseC_eq_model comb zero n bits hashes h pos st
+
+/-- the whole message path, for every message (counts 0, > MaxTxnCount, more hashes than bits, …) -/
+theorem extractMsgC_no_fault (comb : H → H → H) (zero : H) (msg : Merkle.Msg H) :
+    ∃ r, extractMsgC comb zero msg = .ok r := Proofs.Checked.extractMsgC_no_fault comb zero msg
+
+theorem extractMsgC_eq_model (comb : H → H → H) (zero : H) (msg : Merkle.Msg H) :
+    extractMsgC comb zero msg = .ok (Merkle.extractMsg comb zero msg) :=
+  Proofs.Checked.extractMsgC_eq_model comb zero msg
+
+/-- NEGATIVE: each cursor test is needed -/
+theorem traverse_noGuard_faults (comb : H → H → H) (zero : H) (n : Nat) (bits : Array Bool) (hashes : Array H)
+    (pos : Nat) (st : Merkle.Ext H) :
+    (∀ h, bits.size ≤ st.bitsUsed → traverseG false true comb zero n bits hashes h pos st = .error .indexOOB) ∧
+    (st.bitsUsed < bits.size → hashes.size ≤ st.hashesUsed →
+      traverseG true false comb zero n bits hashes 0 pos st = .error .indexOOB) :=
+  ⟨fun h hb => traverseG_noBitGuard_fault comb zero n bits hashes h pos st hb,
+   fun hb hh => traverseG_noHashGuard_fault comb zero n bits hashes pos st hb hh⟩
+
+example : traverseG false true (fun a _ => a) 0 1 #[] #[(1 : Nat)] 0 0 {} = .error .indexOOB := rfl
+example : traverseG true false (fun a _ => a) 0 1 #[true] (#[] : Array Nat) 0 0 {} = .error .indexOOB := rfl
+
+/-- STEP BOUND. `traverseCalls` counts the invocations of `traverseAndExtract` along the run (it keeps
+recursing after `bad` is latched, but a call that finds the bit cursor exhausted has no children):
+calls ≤ 2·(bits consumed by this call) + 1 ≤ 2·(bits left) + 1 — for every height, position, `numTx`. -/
+theorem C08_merkle_steps (comb : H → H → H) (zero : H) (n : Nat) (bits : Array Bool) (hashes : Array H)
+    (h pos : Nat) (st : Merkle.Ext H) :
+    traverseCalls comb zero n bits hashes h pos st
+      ≤ 2 * ((Merkle.traverse comb zero n bits hashes h pos st).2.bitsUsed - st.bitsUsed) + 1 ∧
+    traverseCalls comb zero n bits hashes h pos st ≤ 2 * (bits.size - st.bitsUsed) + 1 :=
+  traverse_steps comb zero n bits hashes h pos st
+
+/-- for a message: at most `16·len(Flags) + 1` invocations whatever `numTx` claims (linear in the input);
+the height loop before it runs at most 33 times by construction (`Merkle.height`). -/
+theorem C08_merkle_steps_msg (comb : H → H → H) (zero : H) (msg : Merkle.Msg H) :
+    traverseCalls comb zero msg.numTx (Merkle.unpackFlags msg.flags).toArray msg.hashes.toArray
+        (Merkle.height msg.numTx) 0 {} ≤ 16 * msg.flags.length + 1 :=
+  extractMsg_steps comb zero msg
+
+end Merkle
+
+-- the count is not trivially 1: a three-node tree is visited three times
+example : traverseCalls (fun a b => a + b) 0 2 #[true, true, false] #[(5 : Nat), 6] 1 0 {} = 3 := by decide
+
+/-! ## 6. GCS readers -/
+
+/-- `values[queryIndex]` behind `queryIndex == querySize` (also: the inner `for {}` terminates — running out
+of the fuel `querySize - queryIndex + 1` is reported as a fault). Every filter (any `N`, `P`, bytes),
+every query list. No hypothesis. -/
+theorem ZipMatchAnyC_no_fault (sip : Bytes → UInt64) (f : Gcs.Filter) (data : List Bytes) :
+    ∃ r, ZipMatchAnyC sip f data = .ok r := Proofs.Checked.ZipMatchAnyC_no_fault sip f data
+
+theorem ZipMatchAnyC_eq_model (sip : Bytes → UInt64) (f : Gcs.Filter) (data : List Bytes) :
+    ZipMatchAnyC sip f data = .ok (Gcs.ZipMatchAny sip f data) :=
+  Proofs.Checked.ZipMatchAnyC_eq_model sip f data
+
+/-- `Match`, `HashMatchAny`, `readFullUint64` contain no panicking operation (their transcription is the
+model); `MatchAny` dispatches -/
+theorem MatchAnyC_eq_model (sip : Bytes → UInt64) (f : Gcs.Filter) (data : List Bytes) :
+    MatchAnyC sip f data = .ok (Gcs.MatchAny sip f data) := Proofs.Checked.MatchAnyC_eq_model sip f data
+
+/-- NEGATIVE: without the `queryIndex == querySize` test the cursor runs off the query list -/
+theorem zip_noGuard_witness : zipAdvanceG false [1] 5 2 0 = .error .indexOOB := zipAdvanceG_noGuard_fault
+
+/-- STEP BOUND. A successful `readFullUint64` consumes at least `p + 1 ≥ 1` bits; hence the loops of
+`Match` and `ZipMatchAny` get at most `min N (8·len(data))` values from the stream, and `HashMatchAny`'s
+decode-until-EOF loop at most `8·len(data)` — whatever `N` claims. (The unary loop inside one read is
+bounded by the bits that read consumes, so the total bit-level work is ≤ the stream length too.) -/
+theorem C08_gcs_steps (p : Nat) :
+    (∀ bs r, Gcs.readFull p bs = some r → r.2.length + p + 1 ≤ bs.length) ∧
+    (∀ term n bs v, matchReads p term n bs v ≤ n ∧ matchReads p term n bs v ≤ bs.length) ∧
+    (∀ n bs v qs, zipReads p n bs v qs ≤ n ∧ zipReads p n bs v qs ≤ bs.length) ∧
+    (∀ fuel bs last, (Gcs.decodeAll p fuel bs last).length ≤ bs.length) ∧
+    (∀ data : Bytes, (Gcs.unpackBits data).length = 8 * data.length) :=
+  ⟨readFull_length p, fun term n bs v => matchReads_le p term n bs v, fun n bs v qs => zipReads_le p n bs v qs,
+   decodeAll_length_le p, unpackBits_length⟩
+
+/-- the cursor of the inner loop of `ZipMatchAny` only moves forward and stays within the query list:
+over a whole run it is advanced at most `len(data)` times -/
+theorem C08_gcs_zip_cursor (values : List UInt64) (value : UInt64) (qi : Nat) (h : qi ≤ values.length) :
+    ∃ qi', qi ≤ qi' ∧ qi' ≤ values.length ∧
+      zipAdvanceG true values value (values.length - qi + 1) qi
+        = .ok ((Gcs.zipAdvance value (values.drop qi)).1, qi') := by
+  obtain ⟨qi', a, b, c, _⟩ := zipAdvanceC_eq values value (values.length - qi + 1) qi h (by omega)
+  exact ⟨qi', a, b, c⟩
+
+/-- ALLOCATION. The number of values `HashMatchAny` decodes into its map is at most `8·len(data)`,
+independently of the declared element count `f.n` (which may be `2^32-1` for a 3-byte filter), and the
+size hint of fix ccc0aee obeys the same bound. The model's fuel `bits+1` never truncates the loop. -/
+theorem C08_gcs_alloc (f : Gcs.Filter) :
+    (Gcs.decodeAll f.p ((Gcs.unpackBits f.data).length + 1) (Gcs.unpackBits f.data) 0).length ≤ 8 * f.data.length ∧
+    sizeHint f ≤ 8 * f.data.length ∧
+    (∀ fuel, (Gcs.unpackBits f.data).length < fuel →
+      Gcs.decodeAll f.p (fuel + 1) (Gcs.unpackBits f.data) 0 = Gcs.decodeAll f.p fuel (Gcs.unpackBits f.data) 0) := by
+  refine ⟨?_, ?_, fun fuel h => decodeAll_fuel_suffices f.p fuel _ 0 h⟩
+  · exact Nat.le_trans (decodeAll_length_le f.p _ (Gcs.unpackBits f.data) 0)
+      (by rw [unpackBits_length]; exact Nat.le_refl _)
+  · unfold sizeHint; omega
+
+-- the degenerate filter of the defect report: N = 2^32-1 declared, one data byte
+example : sizeHint ⟨2^32 - 1, 19, 0, [0]⟩ ≤ 8 := by decide
+
+/-! ## 7. `Block.Tx(i)` -/
+
+/-- `b.transactions[txNum]` (read twice, written once) and `b.msgBlock.Transactions[txNum]` behind the range
+test. Hypothesis: the cache invariant (`len(b.transactions) ∈ {0, numTx}` is its field `len`), which holds
+in every reachable state — see the two corollaries. -/
+theorem getTxC_no_fault (W : BlockCache.Wire) (s : BlockCache.St) (hI : Proofs.BlockCache.Inv W s) (i : Int) :
+    ∃ r, getTxC W s i = .ok r := Proofs.Checked.getTxC_no_fault W s hI i
+
+theorem getTxC_eq_model (W : BlockCache.Wire) (s : BlockCache.St) (hI : Proofs.BlockCache.Inv W s) (i : Int) :
+    getTxC W s i = .ok (BlockCache.getTx W s i) := Proofs.Checked.getTxC_eq_model W s hI.len i
+
+/-- every state reachable by any call sequence from `NewBlock` (message) or `NewBlockFromBytes`, every
+index incl. negative ones -/
+theorem getTxC_no_fault_reachable (W : BlockCache.Wire) (calls : List BlockCache.Call) (i : Int) :
+    (∃ r, getTxC W (Proofs.BlockCache.run W BlockCache.initMsg calls).1 i = .ok r) ∧
+    (∃ r, getTxC W (Proofs.BlockCache.run W (BlockCache.initBytes W.ser) calls).1 i = .ok r) :=
+  ⟨getTxC_no_fault_reachable_msg W calls i, getTxC_no_fault_reachable_bytes W calls i⟩
+
+/-- NEGATIVE: without the range test a negative index, and an index ≥ `numTx`, fault -/
+theorem getTx_noGuard_faults (W : BlockCache.Wire) (s : BlockCache.St) (i : Int) :
+    (i < 0 → getTxG false W s i = .error .indexOOB) ∧
+    ((BlockCache.numTx W : Int) ≤ i → getTxG false W BlockCache.initMsg i = .error .indexOOB) :=
+  ⟨getTxG_false_neg W s i, getTxG_false_past W i⟩
+
+/-- NEGATIVE: the invariant is needed — a slot slice of the wrong length faults despite the range test -/
+theorem getTx_bad_state_witness :
+    getTxC ⟨[], [], [[1],[2]], []⟩ { txs := some [none] } 1 = .error .indexOOB := getTxC_bad_state
+
+/-! ## 8. JSON `convertHex` -/
+
+/-- every JSON value (heterogeneous arrays at any depth, nulls in maps, empty arrays): `d[0]` is behind
+`len(d) > 0` and the assertion is the comma-ok form. No hypothesis. -/
+theorem convertHexC_no_fault (conv : Bytes → Bytes) (j : JsonHex.J) : ∃ r, convertHexC conv j = .ok r :=
+  Proofs.Checked.convertHexC_no_fault conv j
+
+theorem convertHexC_eq_model (conv : Bytes → Bytes) (j : JsonHex.J) :
+    convertHexC conv j = .ok (JsonHex.convertHex conv j) := Proofs.Checked.convertHexC_eq_model conv j
+
+/-- NEGATIVE (labelled): the loop as written before fix 5b940ce faults on `["..", 1]` — in the model's own
+pre-fix function, in the checked transcription, and nested as `{"k":["..",1]}` -/
+theorem convStrs_unchecked_witness (conv : Bytes → Bytes) (a k : Bytes) :
+    JsonHex.convStrsUnchecked conv [.str a, .num 1] = .error .badAssert ∧
+    convertHexG conv false (.arr [.str a, .num 1]) = .error .badAssert ∧
+    convertHexG conv false (.obj [(k, .arr [.str a, .num 1])]) = .error .badAssert :=
+  ⟨rfl, convertHexG_false_witness conv a, convertHexG_false_witness_nested conv k a⟩
+
+/-- the unchecked loop is safe on homogeneous string arrays (what `convertBase64` sees when marshalling) -/
+theorem convStrs_unchecked_homogeneous (conv : Bytes → Bytes) (l : List Bytes) :
+    convStrsG conv false (l.map .str) = .ok (l.map fun s => .str (conv s)) :=
+  convStrsG_false_homogeneous conv l
+
+-- the fixed code on the former crasher: the number is skipped
+example : convertHexC (fun s => s ++ [0]) (.arr [.str [1], .num 1]) = .ok (.arr [.str [1, 0], .num 1]) := rfl
+
+/-! ## 9. all entry points -/
+
+/-- No entry point of C08 panics: every checked transcription returns a value for every input
+(under the stated API preconditions only). -/
+theorem C08_all :
+    (∀ str, ∃ r, DecodeCashAddressC str = .ok r) ∧
+    (∀ input, ∃ r, checkDecodeCashAddressC input = .ok r) ∧
+    (∀ H s, ∃ r, CheckDecodeC H s = .ok r) ∧
+    (∀ H, (∀ b, 4 ≤ (H b).length) → ∀ s, ∃ r, DecodeWIFC H s = .ok r) ∧
+    (∀ (Pt : Type) (X : HDKey.HDExt Pt), (∀ b, 4 ≤ (X.sha256d b).length) → ∀ s, ∃ r, NewKeyFromStringC X s = .ok r) ∧
+    (∀ f : Bloom.Filter, (∀ m, f = some m → m.bits.length ≤ 36000) →
+      ∀ data, (∃ r, MatchesC f data = .ok r) ∧ (∃ r, addC f data = .ok r)) ∧
+    (∀ (H : Type) [DecidableEq H] (comb : H → H → H) zero (msg : Merkle.Msg H), ∃ r, extractMsgC comb zero msg = .ok r) ∧
+    (∀ sip f data, ∃ r, MatchAnyC sip f data = .ok r) ∧
+    (∀ sip f data, ∃ r, ZipMatchAnyC sip f data = .ok r) ∧
+    (∀ W calls i, ∃ r, getTxC W (Proofs.BlockCache.run W BlockCache.initMsg calls).1 i = .ok r) ∧
+    (∀ conv j, ∃ r, convertHexC conv j = .ok r) :=
+  ⟨DecodeCashAddressC_no_fault, checkDecodeCashAddressC_no_fault, CheckDecodeC_no_fault, DecodeWIFC_no_fault,
+   fun _ X hH s => NewKeyFromStringC_no_fault X hH s,
+   fun f h data => ⟨⟨_, MatchesC_eq_model f h data⟩, ⟨_, addC_eq_model f h data⟩⟩,
+   fun _ _ comb zero msg => extractMsgC_no_fault comb zero msg,
+   fun sip f data => ⟨_, MatchAnyC_eq_model sip f data⟩, ZipMatchAnyC_no_fault,
+   fun W calls i => (getTxC_no_fault_reachable W calls i).1, convertHexC_no_fault⟩
+
 end Bch.Props.C08
